@@ -163,7 +163,7 @@ def check(ctx):
     # ------------------------------------------------------------------ FILL
     floops = [n for n in r.node.body + [x for w_ in r.node.body if isinstance(w_, ast.With) for x in w_.body]
               if isinstance(n, ast.For) and norm(n.iter).endswith(".features")]
-    ctx.count("loops over raw.features in read", len(floops), 2)
+    ctx.count("loops over raw.features in read", len(floops), 1)
     srcs = {norm(l.iter) for l in floops}
     geo = [n for n in body_nodes(r.node) if isinstance(n, ast.Assign) and isinstance(n.targets[0], ast.Subscript)
            and isinstance(n.targets[0].slice, ast.Constant) and n.targets[0].slice.value == "geometry"]
